@@ -389,6 +389,13 @@ pub fn special_cross(fam: Family, s: Scalar) -> Vec<DistSpec> {
         0.5 * (1.0 + e),
         (1.0 / 3.0) * (1.0 - e),
         0.25 * (1.0 + e),
+        // a ladder of closeness to 1 (tolerances of 100 eps_f32 ~ 1e-5, 10 eps ~ 1e-6)
+        1.0 + e / 8.0,
+        1.0 - e / 8.0,
+        1.0 + e / 64.0,
+        1.0 - e / 64.0,
+        2.0 * (1.0 + e / 8.0),
+        0.5 * (1.0 - e / 8.0),
         4.0,
         8.0,
         16.0,
@@ -438,6 +445,20 @@ pub fn magnitude_cross(fam: Family, s: Scalar) -> Vec<DistSpec> {
     // underflows / overflows in its intermediate product: seen at 1e-30 and 1e20, not judged.)
     let ks: &[i32] = if s == Scalar::F32 { &[-6, -4, 4, 5] } else { &[-30, -10, 10, 29] };
     let mut v = Vec::new();
+    // narrow intervals: two parameters that nearly coincide at a small, a moderate and a
+    // large magnitude (an absolute-epsilon guard on max - min is wrong at the small one)
+    if fam == Family::Triangular {
+        let (lo, hi) = if s == Scalar::F32 { (2e-6, 3e5) } else { (2e-30, 3e29) };
+        for c in [lo, 1.0, hi, -lo, -1.0] {
+            for wdt in [0.05, 2.0_f64.powi(-8)] {
+                let (a, b) = if c > 0.0 { (c, c * (1.0 + wdt)) } else { (c * (1.0 + wdt), c) };
+                let spec = DistSpec::f(fam, s, &[a, b, a + (b - a) * 0.3]);
+                if in_envelope(&spec) {
+                    v.push(spec);
+                }
+            }
+        }
+    }
     for &k in ks {
         let c = 10.0_f64.powi(k);
         let mut p = base.clone();
